@@ -76,6 +76,10 @@ impl World {
         names
     }
 
+    pub fn disarm_fault(&mut self) {
+        *self.store.fault.lock().unwrap() = None;
+    }
+
     pub fn arm_fault(&mut self, k: usize) {
         *self.store.fault.lock().unwrap() = Some((format!("{}/db_meta.cbor", self.cfg.primary), k));
     }
